@@ -18,7 +18,7 @@ const DICT: [&str; 96] = [
     "{", "}", "(", ")", "[", "]", "[[", "]]", ",", ";", ":", ".", "..", "...", "|", "^", "<", "@", "&", "!", "--", "/*", "*/", "\"", "'", "'0101'B",
 ];
 
-pub const EXOTIC: [&str; 79] = [
+pub const EXOTIC: [&str; 83] = [
     "MY-CLASS ::= CLASS { &id INTEGER UNIQUE, &Type, &val INTEGER OPTIONAL } WITH SYNTAX { ID &id TYPE &Type [VAL &val] }",
     "obj1 MY-CLASS ::= { ID 1 TYPE INTEGER }",
     "obj2 MY-CLASS ::= { ID 2 TYPE BOOLEAN VAL 7 }",
@@ -98,6 +98,13 @@ pub const EXOTIC: [&str; 79] = [
     "RealBig ::= SEQUENCE { r REAL DEFAULT 10000000000000000000000000000000000000000000000000000000000000000000000000000000000000000000000000000000000000000000000000000000000000000000000000000000000000000000000000000000000000000000000000000000000000000000000000000000000000000000000000000000000000000000000000000000000000000000000000000000000000000000000000000000000000000000000000000000000000000000000000000000000000000000000000000000000000000 }",
     "rbig REAL ::= 10000000000000000000000000000000000000000000000000000000000000000000000000000000000000000000000000000000000000000000000000000000000000000000000000000000000000000000000000000000000000000000000000000000000000000000000000000000000000000000000000000000000000000000000000000000000000000000000000000000000000000000000000000000000000000000000000000000000000000000000000000000000000000000000000000000000000000.5",
     "RealExp ::= SEQUENCE { r REAL DEFAULT 1.0E99999 }",
+    // cycles that are entered through a chain of acyclic references (two links), from a name
+    // that sorts after and one that sorts before the cycle: a guard that only recognises a
+    // walk returning to its *start* never ends on these
+    "cyt-a MY-CLASS ::= { cyt-b }\ncyt-b MY-CLASS ::= { cyt-a }\ncyt-y MY-CLASS ::= { cyt-a }\ncyt-z MY-CLASS ::= { cyt-y }\naaa-t MY-CLASS ::= { cyt-z }",
+    "CytA MY-CLASS ::= { CytB }\nCytB MY-CLASS ::= { CytA }\nCytY MY-CLASS ::= { CytA }\nCytZ MY-CLASS ::= { CytY }\nAaaT MY-CLASS ::= { CytZ }\nCytHolder ::= SEQUENCE { id MY-CLASS.&id ({CytZ}), id2 MY-CLASS.&id ({AaaT}) }",
+    "Cyt-A ::= Cyt-B\nCyt-B ::= Cyt-A\nCyt-Y ::= Cyt-A\nCyt-Z ::= Cyt-Y\nAaa-T ::= Cyt-Z\ncyt-v Cyt-Z ::= 5\nCyt-S ::= SEQUENCE { a Cyt-Z, b SEQUENCE OF Aaa-T }",
+    "cyu-a INTEGER ::= cyu-b\ncyu-b INTEGER ::= cyu-a\ncyu-y INTEGER ::= cyu-a\ncyu-z INTEGER ::= cyu-y\naaa-u INTEGER ::= cyu-z\nCyu-T ::= INTEGER (0..cyu-z)\nCyu-S ::= SEQUENCE { a INTEGER DEFAULT aaa-u }",
 ];
 
 fn header(src: &mut Src, name: &str) -> String {
